@@ -46,6 +46,10 @@ func init() {
 const dfPkg = "dnssvc/internal/devicefinder."
 
 func runC03(c *an.Ctx) {
+	dnssvcWiring(c, "C03-R12", func(dst, src string) bool {
+		n := normName(dst) + " " + normName(src)
+		return strings.Contains(n, "profiledb") || strings.Contains(n, "devicedomains") || strings.Contains(n, "humanidparser") || strings.Contains(n, "devicefinder")
+	}, 3)
 	c03FinderWiring(c)
 	c03Extraction(c)
 	// ---- R10: recycled request-information objects never carry the previous request's identity data
